@@ -2,7 +2,8 @@ import SqlgrepModel.Model.Eval
 import SqlgrepModel.Lemmas.ValueOrder
 /-
 `array_unique`: `uniqueValues xs` (`BTreeSet::from_iter(xs).into_iter().collect()`) is the strictly ascending
-list of the FIRST occurrences of the order's equality classes of `xs`.
+list of the LAST occurrences of the order's equality classes of `xs` (an insert of a value equal to a member
+replaces the member, as std's `BTreeSet::from_iter` keeps the later of two equal elements).
 -/
 namespace Sqlgrep
 namespace Unique
@@ -20,17 +21,6 @@ theorem cmp_eq_trans {a b c : Value} (h1 : cmp a b = .eq) (h2 : cmp b c = .eq) :
 theorem cmp_lt_trans {a b c : Value} (h1 : cmp a b = .lt) (h2 : cmp b c = .lt) : cmp a c = .lt :=
   (cmp_T a b c).1 h1 h2
 
-theorem mem_insertUnique_of_mem (v u : Value) : ∀ (l : List Value), u ∈ l → u ∈ insertUnique v l
-  | [], h => by simp at h
-  | x :: xs, h => by
-    unfold insertUnique
-    cases hc : cmp v x <;> simp only
-    · exact List.mem_cons_of_mem _ h
-    · exact h
-    · rcases List.mem_cons.1 h with h | h
-      · rw [h]; exact List.mem_cons_self
-      · exact List.mem_cons_of_mem _ (mem_insertUnique_of_mem v u xs h)
-
 theorem mem_of_mem_insertUnique (v u : Value) : ∀ (l : List Value), u ∈ insertUnique v l → u = v ∨ u ∈ l
   | [], h => by simp [insertUnique] at h; exact Or.inl h
   | x :: xs, h => by
@@ -39,39 +29,24 @@ theorem mem_of_mem_insertUnique (v u : Value) : ∀ (l : List Value), u ∈ inse
     · rcases List.mem_cons.1 h with h | h
       · exact Or.inl h
       · exact Or.inr h
-    · exact Or.inr h
+    · rcases List.mem_cons.1 h with h | h
+      · exact Or.inl h
+      · exact Or.inr (List.mem_cons_of_mem _ h)
     · rcases List.mem_cons.1 h with h | h
       · exact Or.inr (by rw [h]; exact List.mem_cons_self)
       · rcases mem_of_mem_insertUnique v u xs h with h | h
         · exact Or.inl h
         · exact Or.inr (List.mem_cons_of_mem _ h)
 
-/-- a value with no equal in the set is inserted -/
-theorem mem_insertUnique_self (v : Value) : ∀ (l : List Value), (∀ w ∈ l, cmp v w ≠ .eq) → v ∈ insertUnique v l
-  | [], _ => by simp [insertUnique]
-  | x :: xs, h => by
+/-- the inserted value is always a member afterwards (it REPLACES an equal member) -/
+theorem mem_insertUnique_self (v : Value) : ∀ (l : List Value), v ∈ insertUnique v l
+  | [] => by simp [insertUnique]
+  | x :: xs => by
     unfold insertUnique
     cases hc : cmp v x <;> simp only
     · exact List.mem_cons_self
-    · exact absurd hc (h x List.mem_cons_self)
-    · exact List.mem_cons_of_mem _ (mem_insertUnique_self v xs (fun w hw => h w (List.mem_cons_of_mem _ hw)))
-
-/-- a value equal to a member leaves the (sorted) set unchanged: the member first inserted stays -/
-theorem insertUnique_of_eq (v : Value) : ∀ (l : List Value), Sorted l → (∃ w ∈ l, cmp v w = .eq) → insertUnique v l = l
-  | [], _, h => by obtain ⟨w, hw, _⟩ := h; simp at hw
-  | x :: xs, hs, h => by
-    obtain ⟨w, hw, he⟩ := h
-    have hs' := List.pairwise_cons.1 hs
-    unfold insertUnique
-    cases hc : cmp v x <;> simp only
-    · exfalso
-      rcases List.mem_cons.1 hw with hw | hw
-      · rw [hw, hc] at he; exact absurd he (by decide)
-      · have := cmp_lt_trans hc (hs'.1 w hw)
-        rw [this] at he; exact absurd he (by decide)
-    · rcases List.mem_cons.1 hw with hw | hw
-      · rw [hw, hc] at he; exact absurd he (by decide)
-      · rw [insertUnique_of_eq v xs hs'.2 ⟨w, hw, he⟩]
+    · exact List.mem_cons_self
+    · exact List.mem_cons_of_mem _ (mem_insertUnique_self v xs)
 
 theorem sorted_insertUnique (v : Value) : ∀ (l : List Value), Sorted l → Sorted (insertUnique v l)
   | [], _ => by simp [insertUnique, Sorted]
@@ -83,24 +58,58 @@ theorem sorted_insertUnique (v : Value) : ∀ (l : List Value), Sorted l → Sor
       rcases List.mem_cons.1 hy with hy | hy
       · rw [hy]; exact hc
       · exact cmp_lt_trans hc (hs'.1 y hy)
-    · exact hs
+    · -- the equal member is replaced: `v` stands where `x` stood
+      refine List.pairwise_cons.2 ⟨fun y hy => ?_, hs'.2⟩
+      rw [(cmp_T v x y).2.1 hc]; exact hs'.1 y hy
     · refine List.pairwise_cons.2 ⟨fun y hy => ?_, sorted_insertUnique v xs hs'.2⟩
       rcases mem_of_mem_insertUnique v y xs hy with hy | hy
       · rw [hy, cmp_swap v x, hc]; rfl
       · exact hs'.1 y hy
 
-theorem mem_insertUnique_iff (v u : Value) (l : List Value) (hs : Sorted l) :
-    u ∈ insertUnique v l ↔ u ∈ l ∨ (u = v ∧ ∀ w ∈ l, cmp v w ≠ .eq) := by
-  constructor
-  · intro h
-    by_cases he : ∃ w ∈ l, cmp v w = .eq
-    · rw [insertUnique_of_eq v l hs he] at h; exact Or.inl h
-    · rcases mem_of_mem_insertUnique v u l h with h | h
-      · exact Or.inr ⟨h, fun w hw hc => he ⟨w, hw, hc⟩⟩
-      · exact Or.inl h
-  · rintro (h | ⟨h, hn⟩)
-    · exact mem_insertUnique_of_mem v u l h
-    · rw [h]; exact mem_insertUnique_self v l hn
+/-- the members after an insert into a sorted set: the new value, and the old members not equal to it -/
+theorem mem_insertUnique_iff (v u : Value) : ∀ (l : List Value), Sorted l →
+    (u ∈ insertUnique v l ↔ u = v ∨ (u ∈ l ∧ cmp v u ≠ .eq))
+  | [], _ => by simp [insertUnique]
+  | x :: xs, hs => by
+    have hs' := List.pairwise_cons.1 hs
+    unfold insertUnique
+    cases hc : cmp v x <;> simp only
+    · -- v < x ≤ every member: nothing is equal to v
+      have hlt : ∀ y ∈ x :: xs, cmp v y = .lt := by
+        intro y hy
+        rcases List.mem_cons.1 hy with hy | hy
+        · rw [hy]; exact hc
+        · exact cmp_lt_trans hc (hs'.1 y hy)
+      constructor
+      · intro h
+        rcases List.mem_cons.1 h with h | h
+        · exact Or.inl h
+        · exact Or.inr ⟨h, by rw [hlt u h]; decide⟩
+      · rintro (h | ⟨h, _⟩)
+        · rw [h]; exact List.mem_cons_self
+        · exact List.mem_cons_of_mem _ h
+    · constructor
+      · intro h
+        rcases List.mem_cons.1 h with h | h
+        · exact Or.inl h
+        · refine Or.inr ⟨List.mem_cons_of_mem _ h, ?_⟩
+          rw [(cmp_T v x u).2.1 hc, hs'.1 u h]; decide
+      · rintro (h | ⟨h, hne⟩)
+        · rw [h]; exact List.mem_cons_self
+        · rcases List.mem_cons.1 h with h | h
+          · rw [h] at hne; exact absurd hc hne
+          · exact List.mem_cons_of_mem _ h
+    · rw [List.mem_cons, mem_insertUnique_iff v u xs hs'.2]
+      constructor
+      · rintro (h | h | ⟨h, hne⟩)
+        · exact Or.inr ⟨by rw [h]; exact List.mem_cons_self, by rw [h, hc]; decide⟩
+        · exact Or.inl h
+        · exact Or.inr ⟨List.mem_cons_of_mem _ h, hne⟩
+      · rintro (h | ⟨h, hne⟩)
+        · exact Or.inr (Or.inl h)
+        · rcases List.mem_cons.1 h with h | h
+          · exact Or.inl h
+          · exact Or.inr (Or.inr ⟨h, hne⟩)
 
 /-- the fold of `uniqueValues` started from any sorted set -/
 def run (acc xs : List Value) : List Value := xs.foldl (fun acc v => insertUnique v acc) acc
@@ -111,79 +120,74 @@ theorem sorted_run : ∀ (xs acc : List Value), Sorted acc → Sorted (run acc x
   | [], _, h => h
   | x :: xs, acc, h => by rw [run_cons]; exact sorted_run xs _ (sorted_insertUnique x acc h)
 
-/-- `v` occurs in `xs` at a position before which no equal value occurs -/
-def FirstOcc (v : Value) (xs : List Value) : Prop :=
-  ∃ pre post, xs = pre ++ v :: post ∧ ∀ u ∈ pre, cmp u v ≠ .eq
+/-- `v` occurs in `xs` at a position after which no equal value occurs -/
+def LastOcc (v : Value) (xs : List Value) : Prop :=
+  ∃ pre post, xs = pre ++ v :: post ∧ ∀ u ∈ post, cmp u v ≠ .eq
+
+theorem lastOcc_cons (v x : Value) (xs : List Value) :
+    LastOcc v (x :: xs) ↔ (v = x ∧ ∀ u ∈ xs, cmp u v ≠ .eq) ∨ LastOcc v xs := by
+  constructor
+  · rintro ⟨pre, post, h, hp⟩
+    cases pre with
+    | nil =>
+      simp only [List.nil_append, List.cons.injEq] at h
+      obtain ⟨h1, h2⟩ := h
+      subst h2
+      exact Or.inl ⟨h1.symm, hp⟩
+    | cons p pre =>
+      simp only [List.cons_append, List.cons.injEq] at h
+      exact Or.inr ⟨pre, post, h.2, hp⟩
+  · rintro (⟨h, hp⟩ | ⟨pre, post, h, hp⟩)
+    · exact ⟨[], xs, by rw [h]; rfl, hp⟩
+    · exact ⟨x :: pre, post, by rw [h]; rfl, hp⟩
 
 theorem mem_run_iff : ∀ (xs acc : List Value), Sorted acc → ∀ (v : Value),
-    (v ∈ run acc xs ↔ v ∈ acc ∨ ((∀ u ∈ acc, cmp u v ≠ .eq) ∧ FirstOcc v xs))
+    (v ∈ run acc xs ↔ LastOcc v xs ∨ (v ∈ acc ∧ ∀ u ∈ xs, cmp u v ≠ .eq))
   | [], acc, _, v => by
-    simp only [run, List.foldl_nil, FirstOcc]
+    simp only [run, List.foldl_nil, LastOcc]
     constructor
-    · exact Or.inl
-    · rintro (h | ⟨_, pre, post, h, _⟩)
-      · exact h
+    · intro h; exact Or.inr ⟨h, by simp⟩
+    · rintro (⟨pre, post, h, _⟩ | ⟨h, _⟩)
       · cases pre <;> simp at h
+      · exact h
   | x :: xs, acc, hs, v => by
-    rw [run_cons, mem_run_iff xs _ (sorted_insertUnique x acc hs) v]
+    rw [run_cons, mem_run_iff xs _ (sorted_insertUnique x acc hs) v, mem_insertUnique_iff x v acc hs, lastOcc_cons]
     constructor
-    · rintro (h | ⟨hn, pre, post, hx, hp⟩)
-      · rcases (mem_insertUnique_iff x v acc hs).1 h with h | ⟨h, hn⟩
-        · exact Or.inl h
-        · subst h
-          exact Or.inr ⟨fun u hu hc => hn u hu (cmp_eq_symm hc), [], xs, rfl, by simp⟩
-      · refine Or.inr ⟨fun u hu => hn u (mem_insertUnique_of_mem x u acc hu), x :: pre, post, by rw [hx]; rfl, ?_⟩
-        intro u hu
+    · rintro (h | ⟨h | ⟨h, hne⟩, hall⟩)
+      · exact Or.inl (Or.inr h)
+      · exact Or.inl (Or.inl ⟨h, hall⟩)
+      · refine Or.inr ⟨h, fun u hu => ?_⟩
         rcases List.mem_cons.1 hu with hu | hu
-        · subst hu
-          intro hc
-          by_cases he : ∃ w ∈ acc, cmp u w = .eq
-          · obtain ⟨w, hw, hwe⟩ := he
-            exact hn w (mem_insertUnique_of_mem u w acc hw) (cmp_eq_trans (cmp_eq_symm hwe) hc)
-          · exact hn u (mem_insertUnique_self u acc (fun w hw hce => he ⟨w, hw, hce⟩)) hc
-        · exact hp u hu
-    · rintro (h | ⟨hn, pre, post, hx, hp⟩)
-      · exact Or.inl (mem_insertUnique_of_mem x v acc h)
-      · cases pre with
-        | nil =>
-          simp only [List.nil_append, List.cons.injEq] at hx
-          obtain ⟨hx1, _⟩ := hx
-          subst hx1
-          exact Or.inl ((mem_insertUnique_iff x x acc hs).2 (Or.inr ⟨rfl, fun w hw hc => hn w hw (cmp_eq_symm hc)⟩))
-        | cons p pre =>
-          simp only [List.cons_append, List.cons.injEq] at hx
-          obtain ⟨hx1, hx2⟩ := hx
-          subst hx1
-          refine Or.inr ⟨fun u hu => ?_, pre, post, hx2, fun u hu => hp u (List.mem_cons_of_mem _ hu)⟩
-          rcases (mem_insertUnique_iff x u acc hs).1 hu with hu | ⟨hu, _⟩
-          · exact hn u hu
-          · rw [hu]; exact hp x List.mem_cons_self
+        · rw [hu]; exact hne
+        · exact hall u hu
+    · rintro ((⟨h, hall⟩ | h) | ⟨h, hall⟩)
+      · exact Or.inr ⟨Or.inl h, hall⟩
+      · exact Or.inl h
+      · exact Or.inr ⟨Or.inr ⟨h, hall x List.mem_cons_self⟩, fun u hu => hall u (List.mem_cons_of_mem _ hu)⟩
 
 theorem uniqueValues_eq_run (xs : List Value) : uniqueValues xs = run [] xs := rfl
 
 theorem sorted_uniqueValues (xs : List Value) : Sorted (uniqueValues xs) :=
   sorted_run xs [] List.Pairwise.nil
 
-theorem mem_uniqueValues_iff (xs : List Value) (v : Value) : v ∈ uniqueValues xs ↔ FirstOcc v xs := by
+theorem mem_uniqueValues_iff (xs : List Value) (v : Value) : v ∈ uniqueValues xs ↔ LastOcc v xs := by
   rw [uniqueValues_eq_run, mem_run_iff xs [] List.Pairwise.nil v]
   simp
 
-/-- every element has a first equal occurrence -/
-theorem exists_firstOcc : ∀ (xs : List Value) (x : Value), x ∈ xs → ∃ u, cmp u x = .eq ∧ FirstOcc u xs
+/-- every element has a last equal occurrence -/
+theorem exists_lastOcc : ∀ (xs : List Value) (x : Value), x ∈ xs → ∃ u, cmp u x = .eq ∧ LastOcc u xs
   | [], _, h => by simp at h
   | y :: ys, x, h => by
-    by_cases hy : cmp y x = .eq
-    · exact ⟨y, hy, [], ys, rfl, by simp⟩
-    · have hx : x ∈ ys := by
+    by_cases he : ∃ w ∈ ys, cmp w x = .eq
+    · obtain ⟨w, hw, hwx⟩ := he
+      obtain ⟨u, hu, hl⟩ := exists_lastOcc ys w hw
+      exact ⟨u, cmp_eq_trans hu hwx, (lastOcc_cons u y ys).2 (Or.inr hl)⟩
+    · have hxy : x = y := by
         rcases List.mem_cons.1 h with h | h
-        · subst h; exact absurd (cmp_refl x) hy
         · exact h
-      obtain ⟨u, hu, pre, post, he, hp⟩ := exists_firstOcc ys x hx
-      refine ⟨u, hu, y :: pre, post, by rw [he]; rfl, fun w hw => ?_⟩
-      rcases List.mem_cons.1 hw with hw | hw
-      · subst hw
-        intro hc; exact hy (cmp_eq_trans hc hu)
-      · exact hp w hw
+        · exact absurd ⟨x, h, cmp_refl x⟩ he
+      subst hxy
+      exact ⟨x, cmp_refl x, (lastOcc_cons x x ys).2 (Or.inl ⟨rfl, fun u hu hc => he ⟨u, hu, hc⟩⟩)⟩
 
 theorem pairwise_mem {R : Value → Value → Prop} : ∀ {l : List Value}, l.Pairwise R → ∀ {a b : Value}, a ∈ l → b ∈ l →
     a = b ∨ R a b ∨ R b a
